@@ -114,7 +114,7 @@ def spec(prop, tier):
         lists = ["F1", "F3", "V1", "V3"]
         allocs = ["AE", "NP"] if q else ["AE", "NP", "PP"]
         runs = []
-        for r in pair_runs(lists, allocs, tier, 3) + elem_runs(lists, allocs, tier, 2):
+        for r in pair_runs(lists, allocs, tier, 4 if q else 5) + elem_runs(lists, allocs, tier, 2 if q else 3):
             r["faults"] = 1
             runs.append(r)
         for l in lists:
